@@ -137,7 +137,7 @@ def kernel(rel, fired, l2=True):
 # --------------------------------------------------------------------------------------------------------
 class Query:
     def __init__(self, name, ctext, defines=(), trig=False, timeout=30, function="", where="", group=None,
-                 extra_axioms="", want_model=(), zero_axiom=False):
+                 extra_axioms="", want_model=(), zero_axiom=False, unwind=None):
         self.__dict__.update(locals())
         del self.__dict__['self']
 
@@ -303,6 +303,8 @@ def run_query(q, bdir, inc=()):
     for d in inc:
         cmd += ["-I", d]
     cmd += ["-D" + d for d in q.defines] + [base + ".c"]
+    if q.unwind:          # loops whose bound is symbolic: the unwinding assertion is part of the VC (a failing one is reported like any obligation)
+        cmd += ["--unwind", str(q.unwind), "--unwinding-assertions"]
     r.cmds.append(" ".join(cmd))
     rc, out, err, s = core.run(cmd, timeout=300, mem_gb=12)
     r.seconds += s
